@@ -81,6 +81,21 @@ Theorem mixed_path_sem_y : forall vs n j v, (0 <= j < n)%Z ->
 Proof. exact Lemmas.mixed_path_sem_y. Qed.
 Print Assumptions mixed_path_sem_y.
 
+(* segments_scale / mixed_path_scale: multiplying the numeric axis by any s > 0 (vertices and value alike) does not change the
+   selection - whatever the magnitude of the numeric attribute (no absolute tolerance may enter the intersection logic) *)
+Theorem segments_scale : forall vs k v s, 0 < s ->
+  (forall y, In y (line_ordinates (close_poly vs) k) -> ~ y == v) ->
+  existsb (fun g => Qleb (fst g) (s * v) && Qleb (s * v) (snd g)) (segments (map (scale_y s) vs) k) =
+  existsb (fun g => Qleb (fst g) v && Qleb v (snd g)) (segments vs k).
+Proof. exact Lemmas.segments_scale. Qed.
+Print Assumptions segments_scale.
+
+Theorem mixed_path_scale : forall vs n i v s, 0 < s -> (0 <= i < n)%Z ->
+  (forall y, In y (line_ordinates (close_poly vs) (inject_Z i)) -> ~ y == v) ->
+  sem (SMulti AX (multi (map (scale_y s) vs) n)) (ECode i, EVal (s * v)) = sem (SMulti AX (multi vs n)) (ECode i, EVal v).
+Proof. exact Lemmas.mixed_path_scale. Qed.
+Print Assumptions mixed_path_scale.
+
 (* numeric_numeric: with two numeric attributes the state is the region itself *)
 Theorem numeric_numeric : forall r g e x y, (forall isx lo hi, r <> Range isx lo hi) ->
   plot (fst e) = Some x -> plot (snd e) = Some y ->
